@@ -90,7 +90,7 @@ class Check:
         path = os.path.join(self.replay_dir, f"{safe}.json")
         with open(path, "w") as f:
             json.dump({"property": self.pid, "key": key, "message": message, "seed": self.seed, "tier": self.tier,
-                       "case": replay}, f, indent=1, default=repr)
+                       "case": jsonable(replay)}, f, indent=1, default=repr)
         return path
 
     # ---------------------------------------------------------------- finish
@@ -130,6 +130,16 @@ class Check:
               f"states={cov['states']} traces={cov['traces_validated_against_impl']} violations={len(self.violations)} "
               f"known={len(self.known_hits)} wall={ev['wall_s']}s")
         sys.exit(1 if self.violations else 0)
+
+
+def jsonable(x):
+    if isinstance(x, dict):
+        return {(k if isinstance(k, (str, int, float, bool)) or k is None else repr(k)): jsonable(v) for k, v in x.items()}
+    if isinstance(x, (list, tuple, set)):
+        return [jsonable(v) for v in x]
+    if isinstance(x, (bytes, bytearray)):
+        return bytes(x).hex()
+    return x
 
 
 def write_evidence(pid, ev):
